@@ -609,19 +609,20 @@ prop(
               "rec_lambda! closure and the equivalent hand-written recursion; the crate is compiled against the working "
               "tree and each pair is compared on return value, final capture state and recursion trace",
     level_text="Exhaustive over the shape grid: every sequence of 0..=4 captures over {&T, &mut T} (31 patterns, every order "
-               "and interleaving) x 1..=4 arguments x {return type, none} x {f!(a,b), f!(a,b,)} = 496 shapes, each with five "
+               "and interleaving) x 1..=4 arguments x {return type, none} x {f!(a,b), f!(a,b,)} = 496 shapes, each with six "
                "body variants (linear recursion, two recursive calls in one expression, non-integer capture types, mixed "
                "argument types with nested calls, reference-typed arguments &[u64] / &mut Vec<u64> with the closure called "
-               "several times on borrows of different lifetimes) = 2464 generated functions, compiled with the real macro and executed on "
-               "6 inputs each; a compile error is mapped back to the shape it points into and reported as a violation of "
+               "several times on borrows of different lifetimes, call name equal to a capture's or an argument's name) plus a "
+               "28-shape sub-grid recursing 1.3 million frames deep = 2988 generated functions, compiled with the real macro "
+               "twice (debug assertions off and on in the expanding crate) and executed on 6 inputs each; a compile error is mapped back to the shape it points into and reported as a violation of "
                "'compiles'.",
     level_note="Trusted: the generator's hand-written twin (same body text with the macro call replaced by a direct call "
                "passing the captures along). A compile failure that cannot be mapped into a generated shape is "
                "inconclusive. Shapes beyond 4 captures / 4 arguments and capture types with lifetimes are not generated.",
     custom=custom.c20_custom,
     setup=custom.c20_setup,
-    floor=dict(quick=14_000, thorough=14_000),
-    counter_floors=dict(quick=dict(shapes_executed=2464, capture_patterns=31, grid_cells=496, body_variants=5)),
+    floor=dict(quick=30_000, thorough=30_000),
+    counter_floors=dict(quick=dict(shapes_executed=5976, capture_patterns=31, grid_cells=496, body_variants=7, generated_crate_profiles=2)),
     rule="one evaluation = one (shape, input) comparison of the macro closure with its hand-written twin; "
          "distinct_nontrivial = distinct shapes with >= 2 captures or >= 3 arguments or trailing-comma call syntax (the "
          "shapes the pinned tests never expand).",
